@@ -35,9 +35,10 @@ type SubSpec struct {
 
 // PubSpec scripts one publisher goroutine: Calls sequential Publish calls of Batch messages each.
 type PubSpec struct {
-	Topic int
-	Calls int
-	Batch int
+	Topic        int
+	Calls        int
+	Batch        int
+	TopicPerCall bool // call c goes to topic Topic+c (every call opens a topic nobody has used before)
 }
 
 type Scenario struct {
@@ -55,6 +56,8 @@ type Scenario struct {
 	// Parks: hook points at which the first arriving goroutine is held until the controller's interfering op ran.
 	ParkHook string
 	ParkOp   string // "close" | "cancel0" | "publish" | "subscribe"
+	DupUUID  bool          // half of the messages share the UUID "dup" or have an empty UUID (UUIDs are for debugging only; legal)
+	LockStep bool          // the publisher goroutines wait for each other before every call (their calls start together)
 	Big      bool          // many messages: only the top-level trace is emitted (monitors), not the per-model conformance streams
 	Tag      string        // names a hand-written scenario (e.g. the reproduction of a known finding)
 	Wait     time.Duration // liveness bound (default 30s)
@@ -137,7 +140,16 @@ func Run(sc Scenario) *Result {
 			payload = nil
 		}
 		m := message.NewMessage("m"+strconv.Itoa(u), payload)
-		if x%11 == 5 {
+		if sc.DupUUID && u%2 == 0 {
+			// identified by its payload instead ("p<u>-…")
+			payload = []byte(fmt.Sprintf("p%d-%x", u, x))
+			id := "dup"
+			if u%4 == 0 {
+				id = ""
+			}
+			m = message.NewMessage(id, payload)
+			m.Metadata.Set("k", "v"+strconv.Itoa(u))
+		} else if x%11 == 5 {
 			// a message built without the constructor: no metadata map at all (legal; every delivery must still be a
 			// usable message with a metadata map of its own)
 			m = &message.Message{UUID: "m" + strconv.Itoa(u), Payload: payload}
@@ -269,6 +281,11 @@ func Run(sc Scenario) *Result {
 			k := 0
 			for msg := range ch {
 				u, _ := strconv.Atoi(strings.TrimPrefix(msg.UUID, "m"))
+				if !strings.HasPrefix(msg.UUID, "m") && len(msg.Payload) > 1 && msg.Payload[0] == 'p' {
+					if i := bytes.IndexByte(msg.Payload, '-'); i > 1 {
+						u, _ = strconv.Atoi(string(msg.Payload[1:i]))
+					}
+				}
 				mu.Lock()
 				o := originals[u]
 				mp := reflect.ValueOf(msg.Metadata).Pointer()
@@ -402,13 +419,26 @@ func Run(sc Scenario) *Result {
 	}
 	// ---- phase 1
 	var pubs sync.WaitGroup
+	var stepArrived int64
 	for i, p := range sc.Pubs {
 		p, i := p, i
 		pubs.Add(1)
 		go func() {
 			defer pubs.Done()
 			for c := 0; c < p.Calls; c++ {
-				publish(p.Topic, p.Batch, i)
+				if sc.LockStep {
+					atomic.AddInt64(&stepArrived, 1)
+					for spins := 0; atomic.LoadInt64(&stepArrived) < int64(len(sc.Pubs)*(c+1)); spins++ {
+						if spins > 500 {
+							runtime.Gosched()
+						}
+					}
+				}
+				t := p.Topic
+				if p.TopicPerCall {
+					t += c
+				}
+				publish(t, p.Batch, i)
 			}
 		}()
 	}
